@@ -260,16 +260,21 @@ fn run(ctx: &Ctx, rep: &Report) {
         // ordering: converting a sorted list of instants gives a non-decreasing list of timestamps
         inst.sort();
         let r = guard(|| {
-            let mut prev: Option<(u32, (i64, u32))> = None;
+            // ordering is judged through the Timestamp type's own comparison AND through its number,
+            // against the first, the previous and a far-away earlier converted instant
+            let mut seen: Vec<(Timestamp, (i64, u32))> = Vec::new();
             for (s, n) in &inst {
                 if let Some(st) = system_time(*s, *n) {
                     if let Ok(t) = Timestamp::try_from(st) {
-                        if let Some((pt, pi)) = prev {
-                            if t.0 < pt {
-                                return Some((pi, (*s, *n)));
+                        let k = seen.len();
+                        for j in [0usize, k / 2, k.saturating_sub(1)] {
+                            if let Some((pt, pi)) = seen.get(j) {
+                                if t < *pt || t.0 < pt.0 || (t.0 == pt.0) != (t == *pt) {
+                                    return Some((*pi, (*s, *n)));
+                                }
                             }
                         }
-                        prev = Some((t.0, (*s, *n)));
+                        seen.push((t, (*s, *n)));
                     }
                 }
             }
